@@ -133,7 +133,7 @@ def log(msg):
 
 
 def runtime_check(res: Result, ws_name, decls, props_to_run, extra_emit=None, features=cratebuild.ALL_FEATURES, parts=16, max_quarantine_frac=0.2, extra_args=None,
-                  failure_handler=None):
+                  failure_handler=None, profile=None):
     """Build the workspace for decls, run monitors for each property in props_to_run; returns
     (reports_by_prop, modules_by_id). Fills res.quarantined / res.inconclusive."""
     modules = []
@@ -143,7 +143,7 @@ def runtime_check(res: Result, ws_name, decls, props_to_run, extra_emit=None, fe
         mt = emit_module(d, em, ei)
         modules.append((d.id, mt))
         by_id[d.id] = (d, mt)
-    ws = cratebuild.Workspace(ws_name)
+    ws = cratebuild.Workspace(ws_name, profile=profile)
     ok, quarantined, info = cratebuild.build_workspace(ws, modules, features, log=log)
     log("build %s: ok=%s quarantined=%d %s" % (ws_name, ok, len(quarantined), {k: v for k, v in info.items() if k in ("rounds", "build_s")}))
     res.declarations = len(modules) - len(quarantined)
